@@ -19,6 +19,10 @@
    request: a root session is a family of virtual sessions, one per acted-for user, that share
    the attachment.
 
+   {sub} carrying get="data del" ([QSubGet]) is handleSubscription: the subscription reply, then -
+   unless the subscription was refused - replyGetData and replyGetDel called directly with the
+   same (sess, asUid).
+
    What is NOT modelled is explicit ([None] = outside the modelled fragment):
      - a root session subscribing WITHOUT extra.obo (it subscribes at level root, which selects a
        different default access in thisUserSub) and its {set sub};
@@ -36,8 +40,46 @@ Inductive obo_c04 := OboNone | OboUser (u : N) | OboJunk.
 
 Definition has_obo_c04 (ob : obo_c04) : bool := match ob with OboNone => false | _ => true end.
 
-(* a request: the `extra.obo` member and the request proper *)
-Definition oreq_c04 : Type := obo_c04 * op.
+(* a request: the `extra.obo` member and the request proper.  [QSubGet] is {sub} carrying
+   get = "data del" (either part optional, each with its since / before / limit): the topic's
+   handleSubscription answers the subscription and then, unless the subscription was refused,
+   calls replyGetData and replyGetDel itself with the same (sess, asUid). *)
+Inductive oreq_c04 :=
+| QReq (ob : obo_c04) (o : op)
+| QSubGet (ob : obo_c04) (sid : N) (want : list N) (bkg : bool) (gd gl : option (Z * Z * Z)).
+
+Definition q_obo (q : oreq_c04) : obo_c04 := match q with QReq ob _ => ob | QSubGet ob _ _ _ _ _ => ob end.
+(* the request proper; for {sub get=...} its subscription part *)
+Definition q_op (q : oreq_c04) : op := match q with QReq _ o => o | QSubGet _ sid want bkg _ _ => OSub sid want bkg end.
+
+(* the subscription part of {sub get=...} went through: its reply (the last frame) is a 200 *)
+Definition sub_accepted_c04 (sid : N) (o : out) : bool :=
+  match rev o with
+  | (s, Ctrl code _) :: _ => N.eqb s sid && (code =? 200)
+  | (s, CtrlAcs code _ _ _) :: _ => N.eqb s sid && (code =? 200)
+  | _ => false
+  end.
+
+(* handleSubscription: subscriptionReply, then replyGetData and replyGetDel for the same asUid;
+   the store calls of the whole request are numbered through *)
+Definition sub_get_c04 (sm' : sessmap) (f : fault) (x : state) (sid u : N) (want : list N) (bkg : bool)
+           (gd gl : option (Z * Z * Z)) : state * out :=
+  let '(x1, o1) := step_i sm' f x (OSub sid want bkg) in
+  if sub_accepted_c04 sid o1 then
+    match ca x1 with
+    | Some c =>
+      let h1 := match gd with
+                | Some (a, b, l) => get_data f (st x1) c (ncalls x1) sid u a b l
+                | None => mkH (st x1) c (ncalls x1) []
+                end in
+      let h2 := match gl with
+                | Some (a, b, l) => get_del norm_ranges_i f (h_st h1) (h_ca h1) (h_n h1) sid u a b l
+                | None => mkH (h_st h1) (h_ca h1) (h_n h1) []
+                end in
+      (mkState (h_st h2) (Some (h_ca h2)) (h_n h2), o1 ++ h_out h1 ++ h_out h2)
+    | None => (x1, o1)
+    end
+  else (x1, o1).
 
 Section Obo.
 Variable sm : sessmap.          (* session -> the user it is logged in as (Session.uid) *)
@@ -72,15 +114,24 @@ Definition root_req_ok_c04 (x : state) (sid u : N) (ob : obo_c04) (o : op) : boo
 
 (* one request, handled to quiescence *)
 Definition ostep_c04 (f : fault) (x : state) (q : oreq_c04) : option (state * out) :=
-  let '(ob, o) := q in
-  match op_sid o with
-  | None => if has_obo_c04 ob then None else Some (step_i sm f x o)
-  | Some sid =>
+  match q with
+  | QReq ob o =>
+    match op_sid o with
+    | None => if has_obo_c04 ob then None else Some (step_i sm f x o)
+    | Some sid =>
+      match dispatch_as_c04 sid ob with
+      | inr code => Some (mkState (st x) (ca x) 0, [(sid, Ctrl code [])])
+      | inl u =>
+        if is_root_c04 sid && negb (root_req_ok_c04 x sid u ob o) then None
+        else Some (step_i (sm_as_c04 sid u) f x o)
+      end
+    end
+  | QSubGet ob sid want bkg gd gl =>
     match dispatch_as_c04 sid ob with
     | inr code => Some (mkState (st x) (ca x) 0, [(sid, Ctrl code [])])
     | inl u =>
-      if is_root_c04 sid && negb (root_req_ok_c04 x sid u ob o) then None
-      else Some (step_i (sm_as_c04 sid u) f x o)
+      if is_root_c04 sid && negb (has_obo_c04 ob) then None
+      else Some (sub_get_c04 (sm_as_c04 sid u) f x sid u want bkg gd gl)
     end
   end.
 
@@ -114,14 +165,14 @@ Fixpoint orun_c04 (x : state) (h : list (fault * oreq_c04)) : option (state * li
    ACTING user as the author of a publish and the owner of a soft deletion *)
 
 Definition acting_c04 (q : oreq_c04) : option (N * N) :=      (* (session, acting user) *)
-  match op_sid (snd q) with
+  match op_sid (q_op q) with
   | None => None
-  | Some sid => match dispatch_as_c04 sid (fst q) with inl u => Some (sid, u) | inr _ => None end
+  | Some sid => match dispatch_as_c04 sid (q_obo q) with inl u => Some (sid, u) | inr _ => None end
   end.
 
 Definition oevent_c04 (x : state) (q : oreq_c04) (ou : out) : hevent :=
   match acting_c04 q with
-  | Some (sid, u) => event_of (sm_as_c04 sid u) x (snd q) ou
+  | Some (sid, u) => event_of (sm_as_c04 sid u) x (q_op q) ou
   | None => HNone
   end.
 
@@ -141,7 +192,7 @@ Definition oreq_ok_c04 (fq : fault * oreq_c04) : Prop :=
   match acting_c04 (snd fq) with
   | Some (_, u) => u <> 0%N
   | None => True
-  end /\ fault_ok (fst fq) (snd (snd fq)).
+  end /\ fault_ok (fst fq) (q_op (snd fq)).
 Definition ohist_ok_c04 (h : list (fault * oreq_c04)) : Prop := Forall oreq_ok_c04 h.
 
 End Obo.
